@@ -45,6 +45,9 @@ def proj(det):
                     _f(det._critical_dist) if det._critical_dist is not None else "None"]
         elif name == "NNDVI":
             tag = hashlib.md5(np.ascontiguousarray(np.asarray(det.reference_batch, dtype=float)).tobytes()).hexdigest()[:12]
+            last = getattr(det, "_verif_last", None)
+            if last:
+                nums = [_f(last[0]), _f(last[1]), num(last[2])]
         elif name == "PCACD":
             nums = [num(det.num_pcs or 0), _f(det._change_score[-1]), num(len(det._change_score))]
     except Exception as ex:  # noqa
@@ -76,7 +79,22 @@ def families():
 
 
 def make(fam, p):
-    return families()[fam]["cls"](**p)
+    det = families()[fam]["cls"](**p)
+    if fam == "NNDVI" and hasattr(det, "_compute_drift_threshold"):
+        # NNDVI does not keep its distance / threshold: observe them where update() computes the threshold
+        # (the distance is a pure function of the same arguments).  Absent helper -> nothing is observed.
+        from menelaus.partitioners import NNSpacePartitioner
+        inner = det._compute_drift_threshold
+
+        def observed(M, v_ref, v_test, *a, **kw):
+            theta = inner(M, v_ref, v_test, *a, **kw)
+            try:
+                det._verif_last = (float(NNSpacePartitioner.compute_nnps_distance(M, v_ref, v_test)), float(theta), int(M.shape[0]))
+            except Exception:  # noqa
+                det._verif_last = None
+            return theta
+        det._compute_drift_threshold = observed
+    return det
 
 
 def feed(fam, det, item, **kw):
